@@ -377,7 +377,7 @@ func (x *Exec) callUnknownFuncValue(fr *Frame, pc *preparedCall, st *State, k fu
 
 // pureExternal lists dependency packages whose functions do not touch modelled heap.
 func pureExternal(name string) bool {
-	for _, p := range []string{"strings.", "strconv.", "fmt.", "errors.", "time.", "unicode", "math", "bytes.", "path.", "path/filepath.", "encoding/hex.", "encoding/base64.", "net.Split", "net.ParseIP", "net/http.CanonicalHeaderKey", "net/http.ParseTime", "net/http.StatusText", "slices.", "cmp.", "log/slog.", "crypto/", "golang.org/x/crypto/", "reservoir/utils/typeutils.", "reservoir/metrics.", "net/url.", "maps.", "encoding/json.Marshal", "os.", "io.", "sort."} {
+	for _, p := range []string{"strings.", "strconv.", "fmt.", "errors.", "time.", "unicode", "math", "bytes.", "path.", "path/filepath.", "encoding/hex.", "encoding/base64.", "net.Split", "net.ParseIP", "net/http.CanonicalHeaderKey", "net/http.ParseTime", "net/http.StatusText", "slices.", "cmp.", "log/slog.", "crypto/", "golang.org/x/crypto/", "reservoir/utils/typeutils.", "reservoir/metrics.", "net/url.", "maps.", "encoding/json.Marshal", "os.", "io.", "sort.", "reflect."} {
 		if strings.HasPrefix(name, p) {
 			return true
 		}
@@ -760,6 +760,7 @@ func (x *Exec) callByContract(fr *Frame, pc *preparedCall, fc *FuncContract, nam
 	}
 	site := x.siteLabel(pc.e)
 	x.holdsPre(fr, st, fc, shortName(name), site, pc)
+	x.callBlocks(fr, st, fc, shortName(name), site, pc.e)
 	for i, r := range fc.Requires {
 		t := x.specBool(env, r.Expr)
 		x.oblige(fr, st, "pre", fmt.Sprintf("%s/%d@%s", shortName(name), i+1, site), t, pc.e)
@@ -882,6 +883,7 @@ func (x *Exec) callFnFieldContract(fr *Frame, pc *preparedCall, fc *FuncContract
 	}
 	site := x.siteLabel(pc.e)
 	x.holdsPre(fr, st, fc, fc.Name, site, pc)
+	x.callBlocks(fr, st, fc, fc.Name, site, pc.e)
 	for i, r := range fc.Requires {
 		t := x.specBool(env, r.Expr)
 		x.oblige(fr, st, "pre", fmt.Sprintf("%s/%d@%s", fc.Name, i+1, site), t, pc.e)
